@@ -121,9 +121,16 @@ func (s *Store) persist(higher Snapshot, persistOptions StorePersistOptions) (
 		return nil, fmt.Errorf("store: can only persist segmentStack")
 	}
 
-	// If higher segment has no data, we're still clean, so just snapshot.
+	// If higher segment has no data and neither created nor deleted a
+	// child collection, we're still clean, so just snapshot.
 	if ss.isEmpty() {
-		return s.Snapshot()
+		s.m.Lock()
+		sameChildren := s.footer.sameChildren(ss)
+		s.m.Unlock()
+
+		if sameChildren {
+			return s.Snapshot()
+		}
 	}
 
 	fref, file, err := s.startOrReuseFile()
@@ -223,6 +230,31 @@ func (s *Store) buildNewFooter(storeFooter *Footer, ss *segmentStack) *Footer {
 	// As a deleted Child collection does not feature in the source
 	// segmentStack, its corresponding Footer would simply get dropped.
 	return footer
+}
+
+// sameChildren returns true when the given segmentStack has exactly
+// the child collections (by name and incarnation, recursively) that
+// this footer has, i.e., when persisting the segmentStack would
+// neither add nor drop a child collection.
+func (f *Footer) sameChildren(ss *segmentStack) bool {
+	var childFooters map[string]*Footer
+	if f != nil {
+		childFooters = f.ChildFooters
+	}
+
+	if len(childFooters) != len(ss.childSegStacks) {
+		return false
+	}
+
+	for cName, childStack := range ss.childSegStacks {
+		childFooter, exists := childFooters[cName]
+		if !exists || childFooter.incarNum != childStack.incarNum ||
+			!childFooter.sameChildren(childStack) {
+			return false
+		}
+	}
+
+	return true
 }
 
 // persistSegments will recursively write out all the segments of the
